@@ -59,6 +59,18 @@ def fiat_sequences(rng, prog):
         frames.append(P.frame(name, st, over=("x%d" % (j - 1)) if j else None))
     slave["frames"] = frames
     slave["first"] = None
+    if rng.random() < 0.45:
+        # a cloned auxiliary in the slave's first outline whose own first frame is guarded: the clone's main frame is fixed for
+        # life, yet every ready / start of the slave has to evaluate the clone's entry condition again
+        gneed = P.cmp(rng.choice([".c0", ".c1"]), rng.choice(["==", "!=", ">="]), rng.randint(0, 2))
+        gm = P.framer("gm", [P.frame("g0", [P.rec("gm.g0.benter", "benter"), {"v": "let", "needs": [gneed]}] +
+                                     [P.rec("gm.g0." + c, c) for c in gen.REC_CTX])], sched="moot")
+        framers.append(gm)
+        host = rng.choice(frames)
+        host["stmts"].insert(1, {"v": "aux", "aux": "gm", "as": rng.choice(["mine", "kg"])})
+        if rng.random() < 0.5:        # sometimes the clone's guard is the only entry condition of the outline
+            for fr in frames:
+                fr["stmts"] = [st for st in fr["stmts"] if st["v"] != "let"]
 
 
 def install_fiat_contracts():
@@ -156,6 +168,12 @@ def worker(ctx, job):
                 S = info.S[n]
                 firsts = S.outline(S.first)
                 needs = [nd for f in firsts for nd in info.guarded.get((n, f), [])]
+                for f in firsts:          # entry conditions of the first outline of every cloned aux in these frames
+                    for st in S.frames[f]["stmts"]:
+                        if st["v"] == "aux" and st.get("as") and st["aux"] in info.S:
+                            M = info.S[st["aux"]]
+                            needs += [nd for g in M.outline(M.first) for nd in info.guarded.get((st["aux"], g), [])]
+                            ctx.hit("starts_through_a_guarded_clone")
                 plain_auxes = [a for f in firsts for a in info.plain.get((n, f), [])]
                 verdict = monitors.eval_let(needs, s["pre"]) if needs else True
                 if verdict is False:
@@ -271,4 +289,5 @@ def run(ctx):
     ctx.floor("starts_with_true_first_frame_condition", 100)
     ctx.floor("controls_checked", 2000)
     ctx.floor("bids_with_period", 20)
+    ctx.floor("starts_through_a_guarded_clone", 30)
     ctx.floor("slave_sends", 100)
